@@ -1,6 +1,7 @@
 package main
 
 import (
+	"go/token"
 	"fmt"
 	"sync"
 	"go/constant"
@@ -45,6 +46,7 @@ type Session struct {
 	Assumed  map[string]bool // names of assumed contracts / built-ins used (trusted base)
 	covered  sync.Map        // cover groups already shown reachable
 	Inlined  map[string]bool
+	varObjs  map[string]*types.Var // key of State.names -> the source variable (scope-aware resolution of names in clauses)
 	BlenFacts bool // the contract under verification talks about blen: give every content code its length
 }
 
@@ -71,7 +73,7 @@ func (t *StrTable) Code(s string) int {
 
 func NewSession(p *Program, spec *Spec, pkg string) *Session {
 	return &Session{Prog: p, Spec: spec, PkgPath: pkg, declared: map[string]string{}, factSet: map[string]bool{},
-		strs: spec.Strs, globals: map[*ssa.Global]*Loc{}, Assumed: map[string]bool{}, Inlined: map[string]bool{}}
+		strs: spec.Strs, globals: map[*ssa.Global]*Loc{}, Assumed: map[string]bool{}, Inlined: map[string]bool{}, varObjs: map[string]*types.Var{}}
 }
 
 func (s *Session) declare(name, sort string) string {
@@ -365,7 +367,8 @@ type State struct {
 	iters  map[*IterObj]*IterState
 	trace  []string
 	writes map[string]bool // components written on this path (for frame.modifies)
-	names  map[string]Val  // "<func>.<var>" -> latest value seen in a DebugRef (source-level names for invariants)
+	names  map[string]Val  // "<func>.<var>#<declpos>" -> latest value seen in a DebugRef (source-level names for invariants)
+	nameSeq map[string]int // order in which the names were last assigned on this path
 	ghost  map[string]Sc   // ghost variables of the function under verification
 	caps   map[string]Val  // captured call arguments/results (contract directive `capture`)
 	wcount map[string]int  // per table: number of write operations so far on this path (iterator validity)
@@ -373,7 +376,7 @@ type State struct {
 
 func NewState() *State {
 	return &State{regs: map[ssa.Value]Val{}, mem: map[*Loc]Val{}, arrs: map[*Arr]*ArrContent{}, comps: map[string]string{},
-		iters: map[*IterObj]*IterState{}, writes: map[string]bool{}, names: map[string]Val{}, ghost: map[string]Sc{}, wcount: map[string]int{}, caps: map[string]Val{}}
+		iters: map[*IterObj]*IterState{}, writes: map[string]bool{}, names: map[string]Val{}, nameSeq: map[string]int{}, ghost: map[string]Sc{}, wcount: map[string]int{}, caps: map[string]Val{}}
 }
 
 func (st *State) Clone() *State {
@@ -382,6 +385,10 @@ func (st *State) Clone() *State {
 		iters: make(map[*IterObj]*IterState, len(st.iters)), writes: make(map[string]bool, len(st.writes)), names: make(map[string]Val, len(st.names))}
 	for k, v := range st.names {
 		n.names[k] = v
+	}
+	n.nameSeq = make(map[string]int, len(st.nameSeq))
+	for k, v := range st.nameSeq {
+		n.nameSeq[k] = v
 	}
 	n.caps = make(map[string]Val, len(st.caps))
 	for k, v := range st.caps {
@@ -703,4 +710,64 @@ func (s *Session) patchGlobalInit(g *ssa.Global, r Rec) Val {
 		}
 	}
 	return nr
+}
+
+// resolveNames maps source-level variable names of function fn to values, scope-aware: when several
+// variables of the function share a name (shadowing), a clause evaluated at position pos (the loop
+// header for invariants; NoPos for postconditions) means the variable whose scope contains pos
+// (innermost such); failing that the variable of the outermost scope; ties go to the latest assignment.
+func (s *Session) resolveNames(st *State, fn *ssa.Function, pos token.Pos) map[string]Val {
+	pfx := fn.String() + "."
+	type cand struct {
+		key   string
+		obj   *types.Var
+		depth int
+		in    bool
+	}
+	groups := map[string][]cand{}
+	for k := range st.names {
+		if !strings.HasPrefix(k, pfx) {
+			continue
+		}
+		rest := k[len(pfx):]
+		i := strings.LastIndex(rest, "#")
+		if i < 0 {
+			continue
+		}
+		name := rest[:i]
+		c := cand{key: k, obj: s.varObjs[k]}
+		if c.obj != nil {
+			for sc := c.obj.Parent(); sc != nil; sc = sc.Parent() {
+				c.depth++
+			}
+			if pos != token.NoPos && c.obj.Parent() != nil && c.obj.Parent().Contains(pos) && c.obj.Pos() <= pos {
+				c.in = true
+			}
+		}
+		groups[name] = append(groups[name], c)
+	}
+	out := map[string]Val{}
+	for name, cs := range groups {
+		best := cs[0]
+		better := func(a, b cand) bool { // a better than b
+			if a.in != b.in {
+				return a.in
+			}
+			if a.in { // both contain pos: innermost
+				if a.depth != b.depth {
+					return a.depth > b.depth
+				}
+			} else if a.depth != b.depth { // neither: outermost
+				return a.depth < b.depth
+			}
+			return st.nameSeq[a.key] > st.nameSeq[b.key]
+		}
+		for _, c := range cs[1:] {
+			if better(c, best) {
+				best = c
+			}
+		}
+		out[name] = st.names[best.key]
+	}
+	return out
 }
